@@ -68,3 +68,74 @@ func planC06(tier string) *Plan {
 	p.Explanation = "Symbolic execution of the real Context.N/F/M/GetPrimaryIndex with the validator count, height and view as solver variables; every obligation is one SMT query over the whole domain (cvc5 --solve-bv-as-int=sum for the division/modulo by a variable), cross-checked for concrete counts on z3's bit-vector theory. unsat of the negated obligation = holds for every value."
 	return p
 }
+
+// ---------------------------------------------------------------- step harness jobs
+
+const (
+	apiChangeView = iota
+	apiPrepareRequest
+	apiPrepareResponse
+	apiCommit
+	apiPreCommit
+	apiRecoveryRequest
+	apiRecoveryMessage
+	apiTimeout
+	apiTransaction
+	apiNewTransaction
+	apiReset
+	apiStart
+)
+
+var apiNames = []string{"ChangeView", "PrepareRequest", "PrepareResponse", "Commit", "PreCommit", "RecoveryRequest", "RecoveryMessage", "Timeout", "Transaction", "NewTransaction", "Reset", "Start"}
+
+type stepCfg struct {
+	n, my, prim      int
+	amev, maxtpb     int
+	req, ntx, txmask int
+	api              int
+	extra            map[string]int
+}
+
+func stepJob(c stepCfg, want []string) *Job {
+	j := &Job{Pkg: dbftPkg, Entry: "H_step", Solver: "z3-new", Want: want, Params: map[string]int{
+		"n": c.n, "my": c.my, "prim": c.prim, "amev": c.amev, "maxtpb": c.maxtpb, "req": c.req, "ntx": c.ntx, "txmask": c.txmask,
+		"api": c.api, "ncache": 0, "npool": 0, "rtt": 0, "mntx": 0, "rreq": 0, "rresp": 0, "rcv": 0, "rpc": 0, "rc": 0}}
+	for k, v := range c.extra {
+		j.Params[k] = v
+	}
+	return j
+}
+
+// stepSweep enumerates step-harness cells. roles: own indices to use (with primary 0).
+func stepSweep(n int, roles []int, amevs, maxs, reqs []int, txcfgs [][2]int, apis []int, want []string, budget int) []*Job {
+	var jobs []*Job
+	for _, my := range roles {
+		for _, amev := range amevs {
+			for _, mx := range maxs {
+				for _, req := range reqs {
+					for _, tc := range txcfgs {
+						if req == 0 && (tc[0] != 0) {
+							continue
+						}
+						for _, api := range apis {
+							if api == apiPreCommit && amev == 0 {
+								// handled by the same gate as amev=1 below the enabling height
+							}
+							c := stepCfg{n: n, my: my, prim: 0, amev: amev, maxtpb: mx, req: req, ntx: tc[0], txmask: tc[1], api: api}
+							if api == apiPrepareRequest {
+								c.extra = map[string]int{"mntx": 1}
+							}
+							if api == apiRecoveryMessage {
+								c.extra = map[string]int{"rreq": 1, "rresp": 1, "rcv": 1, "rpc": amev, "rc": 1, "mntx": 0}
+							}
+							j := stepJob(c, want)
+							j.BudgetS = budget
+							jobs = append(jobs, j)
+						}
+					}
+				}
+			}
+		}
+	}
+	return jobs
+}
